@@ -28,10 +28,10 @@ structure Inv (c : Cfg) (s : State) : Prop where
   rEarly : s.rpc.early = true → s.pulled ≤ c.src.length
   rApp : ∀ v i, s.rpc = .app v i → i + 1 = s.pulled ∧ c.src[i]? = some v ∧ snapDue c i = true
   rPut : ∀ m, s.rpc = .put m → m.idx + 1 = s.pulled ∧ m.pay = rawAt c m.idx
-  rExit : s.rpc = .exited → s.stop = true ∨ s.pulled = c.src.length + 1
+  rExit : (s.rpc = .exited ∨ s.rpc = .ret) → s.stop = true ∨ s.pulled = c.src.length + 1
   sOff : s.spc = .off ↔ c.inOrder = false
   offEmpty : c.inOrder = false → s.sq = [] ∧ s.buf = [] ∧ s.cur = 0
-  stopC : s.stop = true → (s.cpc = .set2 ∨ s.cpc = .idle ∨ s.cpc = .top ∨ s.cpc = .shut1 ∨ s.cpc = .closed)
+  stopC : s.stop = true → (s.cpc = .set2 ∨ s.cpc = .idle ∨ s.cpc = .top ∨ s.cpc = .shut1 ∨ s.cpc = .closed ∨ s.cpc = .dset2)
   mpStop : s.mpstop = true → s.stop = true ∧ (s.cpc = .idle ∨ s.cpc = .top ∨ s.cpc = .shut1 ∨ s.cpc = .closed)
   wExit : ∀ p ∈ s.wk, (p = .exited ∨ p = .chk) → (if c.proc then s.mpstop else s.stop) = true
   sExit : s.spc = .exited → s.stop = true
@@ -53,7 +53,7 @@ structure Inv (c : Cfg) (s : State) : Prop where
   doneI : s.done = true → c.term = .stop ∧ (c.src.length ∈ s.got ∨ s.cpc.hand = some c.src.length)
   doneC : c.term = .stop → (c.src.length ∈ s.got ∨ s.cpc.hand = some c.src.length) → s.done = true
   fin : (s.cpc = .set1 ∨ s.cpc = .set2 ∨ 0 < s.nstop ∨ (s.stop = true ∧ (s.cpc = .idle ∨ s.cpc = .top))) →
-    s.done = true ∧ s.sem = c.max
+    0 < deadCount s ∨ (s.sem = c.max ∧ (s.done = true ∨ (c.term = .error ∧ c.src.length ∈ s.got)))
   getNotFin : s.cpc = .get → ¬(s.done = true ∧ s.sem = c.max)
   nstopStop : 0 < s.nstop → s.stop = true
   storeSorted : (s.store.map Prod.fst).Pairwise (· < ·)
@@ -63,7 +63,9 @@ structure Inv (c : Cfg) (s : State) : Prop where
   lenEq : s.got.length = s.outs.length + s.errs + (if c.term = .stop then s.got.count c.src.length else 0)
   closed : c.inOrder = true → s.errs = 0 → s.cpc ≠ .boot →
     s.snap = c.base + (s.outs.length - s.outs.length % c.f) ∧ s.steps = s.outs.length % c.f + s.cpc.bump
-  stopOf : (s.cpc = .set2 ∨ s.cpc = .shut1 ∨ s.cpc = .closed) → s.stop = true
+  stopOf : (s.cpc = .set2 ∨ s.cpc = .shut1 ∨ s.cpc = .closed ∨ s.cpc = .dset2) → s.stop = true
+  deadSeen : (s.cpc = .dchk1 ∨ s.cpc = .dchk2 ∨ s.cpc = .dset1 ∨ s.cpc = .dset2) → 0 < deadCount s
+  rtDead : 0 < s.rterr → 0 < deadCount s
   bootI : s.cpc = .boot → s.outs = [] ∧ s.steps = 0
 
 /-- Discharges a field that the action did not touch. -/
@@ -75,7 +77,7 @@ macro "same" h:ident : tactic => `(tactic| (
   | exact ($h).outS | exact ($h).outBuf | exact ($h).outSq | exact ($h).outC | exact ($h).popItem | exact ($h).outsEq
   | exact ($h).inqSorted | exact ($h).order | exact ($h).bufNe | exact ($h).doneI | exact ($h).doneC | exact ($h).fin
   | exact ($h).getNotFin | exact ($h).nstopStop | exact ($h).storeSorted | exact ($h).storeSound
-  | exact ($h).storeComplete | exact ($h).lenEq | exact ($h).closed | exact ($h).stopOf | exact ($h).bootI))
+  | exact ($h).storeComplete | exact ($h).lenEq | exact ($h).closed | exact ($h).stopOf | exact ($h).bootI | exact ($h).deadSeen | exact ($h).rtDead))
 
 /- `fr [extra simp facts] h.field`: re-establishes a field whose statement mentions a changed component only
 through the derived observables. -/
@@ -102,6 +104,24 @@ theorem done_pulled {c : Cfg} {s : State} (h : Inv c s) (hd : s.done = true) : s
     · exact cnt_ge_got hg
     · exact cnt_ge_chand hg
   split at h2 <;> omega
+
+theorem end_pulled {c : Cfg} {s : State} (h : Inv c s) (hg : c.src.length ∈ s.got) : s.pulled = c.src.length + 1 := by
+  have h2 := h.cnt c.src.length
+  have h3 := h.pulledLe
+  have := cnt_ge_got hg
+  split at h2 <;> omega
+
+/-- the terminal has been consumed (`_done`, or the source's error was raised): the reader is past its loop -/
+theorem fin_not_early {c : Cfg} {s : State} (h : Inv c s)
+    (hf : s.done = true ∨ (c.term = .error ∧ c.src.length ∈ s.got)) : s.rpc.early = false := by
+  have hp : s.pulled = c.src.length + 1 := by
+    rcases hf with hd | ⟨_, hg⟩
+    · exact done_pulled h hd
+    · exact end_pulled h hg
+  cases he : s.rpc.early
+  · rfl
+  · have := h.rEarly he
+    omega
 
 theorem done_not_early {c : Cfg} {s : State} (h : Inv c s) (hd : s.done = true) : s.rpc.early = false := by
   cases he : s.rpc.early
@@ -178,6 +198,8 @@ theorem inv_init (c : Cfg) : Inv c (init c) := by
   case closed => simp [init]
   case stopOf => simp [init]
   case bootI => simp [init]
+  case deadSeen => simp [init]
+  case rtDead => simp [init]
 
 /-- in_order: what the consumer has processed is an initial segment of the indices. -/
 theorem range_prefix (a b : List Nat) (n : Nat) (h : a ++ b = List.range n) : a = List.range a.length := by
@@ -204,5 +226,52 @@ theorem order_hand {c : Cfg} {s : State} (h : Inv c s) (hio : c.inOrder = true) 
   rw [List.getElem?_range] at h4
   · simp at h4; omega
   · simp
+
+theorem sum_zero_all {α : Type} (g : α → Nat) : ∀ (l : List α), (l.map g).sum = 0 → ∀ p ∈ l, g p = 0
+  | [], _, p, hp => by simp at hp
+  | a :: l, h, p, hp => by
+    simp at h hp
+    rcases hp with rfl | hp
+    · exact h.1
+    · exact sum_zero_all g l h.2 p hp
+
+theorem sum_all_zero {α : Type} (g : α → Nat) : ∀ (l : List α), (∀ p ∈ l, g p = 0) → (l.map g).sum = 0
+  | [], _ => by simp
+  | a :: l, h => by
+    simp
+    exact ⟨h a (by simp), sum_all_zero g l (fun p hp => h p (by simp [hp]))⟩
+
+/-- Nothing is in flight: every index pulled so far has been processed by the consumer exactly once. -/
+theorem drained (h : Inv c s) (hheld : held s = 0) (hhand : s.cpc.hand = none) (hlost : s.lost = []) :
+    ∀ k, s.got.count k = if k < s.pulled then 1 else 0 := by
+  intro k
+  have h1 := h.cnt k
+  simp only [held] at hheld
+  have hinq : s.inq = [] := List.eq_nil_of_length_eq_zero (by omega)
+  have hmid : s.mid = [] := List.eq_nil_of_length_eq_zero (by omega)
+  have hbuf : s.buf = [] := List.eq_nil_of_length_eq_zero (by omega)
+  have hsq : s.sq = [] := List.eq_nil_of_length_eq_zero (by omega)
+  have hr : s.rpc.hand = none := by
+    have : s.rpc.holds = 0 := by omega
+    cases hh : s.rpc <;> simp [hh, RPc.holds, RPc.hand] at this ⊢
+  have hsp : s.spc.hand = none := by
+    have : s.spc.holds = 0 := by omega
+    cases hh : s.spc <;> simp [hh, SPc.holds, SPc.hand] at this ⊢
+  have hw : (s.wk.map (WPc.cnt k)).sum = 0 := by
+    apply sum_all_zero
+    intro p hp
+    have : (s.wk.map WPc.holds).sum = 0 := by omega
+    have := sum_zero_all WPc.holds s.wk this p hp
+    cases p <;> simp [WPc.holds, WPc.cnt, WPc.hand] at this ⊢
+  simp only [cnt, hinq, hmid, hbuf, hsq, hr, hsp, hw, hhand, hlost] at h1
+  simpa using h1
+
+
+theorem deadCount_pos_of_mem {s : State} (h : WPc.dead ∈ s.wk) : 0 < deadCount s := by
+  unfold deadCount
+  rcases Nat.eq_zero_or_pos (s.wk.map WPc.deadN).sum with h0 | h0
+  · have := sum_zero_all WPc.deadN s.wk h0 _ h
+    simp [WPc.deadN] at this
+  · exact h0
 
 end TDV.PM
